@@ -34,6 +34,7 @@ theorem stepAns_none {s : MState} {j : Job} {l : Lbl} (h : stepAns s j l = none)
   · split at h <;> simp at h
   · split at h <;> simp at h
   · split at h <;> simp at h
+  · split at h <;> simp at h
   · simp at h
 
 /-- a program without reply steps runs to its end -/
